@@ -132,6 +132,17 @@ Theorem C20_guard_schemas_nonvacuous :
 Proof. exact schemas_guard_nonvacuous. Qed.
 Print Assumptions C20_guard_schemas_nonvacuous.
 
+(* ---------------------------------------------------------------- whole pipeline, referenced component schemas *)
+Theorem C20_full_pipeline_models_nodup : forall raw out, pipeline_models raw = Some out ->
+  NoDup (map (fun x => snd (fst x)) out) /\ NoDup (map (fun x => fst (fst x)) out).
+Proof. exact pipeline_models_nodup. Qed.
+Print Assumptions C20_full_pipeline_models_nodup.
+
+Theorem C20_partial_pipeline_none_dropped : forall raw, guard_F20k raw = true -> guard_F20m raw = true ->
+  exists out, pipeline_models raw = Some out /\ forall i, (i < length raw)%nat -> In i (map snd out).
+Proof. exact pipeline_models_none_dropped. Qed.
+Print Assumptions C20_partial_pipeline_none_dropped.
+
 (* ---------------------------------------------------------------- namespaces: model classes and module stems *)
 Theorem C20_full_dedup_models_nodup : forall raw,
   let out := dedup_models raw in
